@@ -161,6 +161,17 @@ class Yajilin(Spec):
     max_cells_thorough = 16
 
     def instance(self, draw, max_cells):
+        if draw(st.integers(0, 9)) == 0:
+            # a long single row: clue numbers with two digits (>= 10 black cells in one direction)
+            w = draw(st.integers(21, 24))
+            row = ["??" if x % 2 else ".." for x in range(w - 1)]
+            k = sum(1 for v in row if v == "..")
+            row.append("<%d" % (k if draw(st.integers(0, 3)) else k + draw(st.sampled_from([-9, -1, 1]))))
+            prob = [row]
+            if draw(st.booleans()):
+                prob = [[r.replace("<", "^")] for r in row]  # the same as a single column
+                return dict(h=w, w=1, problem=prob)
+            return dict(h=1, w=w, problem=prob)
         h, w = draw_board(draw, st, max_cells, max_side=4)
         es, vis = pick_loop(draw, h, w)
         cells = [(y, x) for y in range(h) for x in range(w)]
@@ -348,6 +359,24 @@ class CastleWall(Spec):
     max_cells_thorough = 20
 
     def instance(self, draw, max_cells):
+        if draw(st.integers(0, 7)) == 0:
+            # a long 2-row (or 2-column) board: clue numbers with two digits
+            w = draw(st.integers(12, 15))
+            want = frozenset((y, x) for y in range(2) for x in range(1, w))
+            es = next(e for e, v in loops(2, w) if v == want)
+            k = self.count(es, ">", 0, 0, 2, w)
+            if draw(st.integers(0, 3)) == 0:
+                k += draw(st.sampled_from([-9, -1, 1]))
+            arrow = [[".."] * w for _ in range(2)]
+            inside = [[None] * w for _ in range(2)]
+            arrow[0][0] = ">%d" % k
+            if draw(st.booleans()):
+                arrow[1][0] = "##"
+            if draw(st.booleans()):
+                # transposed: a 2-column board with a down arrow
+                arrow_t = [[arrow[y][x].replace(">", "v") for y in range(2)] for x in range(w)]
+                return dict(h=w, w=2, arrow=arrow_t, inside=[[None] * 2 for _ in range(w)])
+            return dict(h=2, w=w, arrow=arrow, inside=inside)
         h, w = draw_board(draw, st, max_cells, min_side=2, max_side=5)
         es, vis = pick_loop(draw, h, w)
         cells = [(y, x) for y in range(h) for x in range(w)]
